@@ -71,6 +71,17 @@ def scan_header(rel, macros=frozenset()):
         if n_ in macros and n_ not in seen_use:
             seen_use.add(n_); pos_items.append((m.start(), {"kind": "use", "name": n_}))
     pos_items.sort(key=lambda x: x[0])
+    # alternative definitions of one macro inside one header (#if ... #define X a #else #define X b #endif): the preprocessor sees one of
+    # them; a second #define of a name without an #undef in between is not a redefinition the header makes
+    live, kept = set(), []
+    for pos_, f in pos_items:
+        if f["kind"] == "macro":
+            if f["name"] in live: continue
+            live.add(f["name"])
+        elif f["kind"] == "undef":
+            live.discard(f["name"])
+        kept.append((pos_, f))
+    pos_items = kept
     for _, f in pos_items:
         f["h"] = rel
         f.setdefault("body", ""); f.setdefault("fnlike", 0)
